@@ -26,7 +26,7 @@ from vclock11 import VClock
 ID = 'C11'
 KERNELS = ['Gen/Window.v: win_guard', 'Gen/Window.v: win_trim_cond', 'Gen/Window.v: win_counter_next',
            'Gen/Window.v: win_skip', 'Gen/Window.v: win_step_order', 'Gen/Window.v: win_counter_init/dstream_time_init',
-           'Gen/Window.v: st_guard/tr_guard/src_guard']
+           'Gen/Window.v: st_guard/tr_guard/src_guard', 'Gen/Window.v: tr_step_order/st_step_order/st_state_index_from_end']
 SHARD = 250
 
 WINDOW, COUNT, STATE, BOTH, COUNT_STATE = 0, 1, 2, 3, 4
